@@ -5,12 +5,12 @@
    the relativization choices). *)
 From DV Require Import Base.Prelude Model.NameM Model.TokM Model.RdTextM.
 From DV Require Import Proofs.NameValid Proofs.NameText Proofs.TokEsc Proofs.TokTxt Proofs.TokWords
-     Proofs.TokDec Proofs.TokHex Proofs.TokShape Proofs.TokGeneric Proofs.TokUtf8 Proofs.RdTextName Proofs.RdTextAddr Proofs.RdTextBitmap Proofs.RdTextTypes Proofs.RdTextB32 Proofs.RdTextSig Proofs.RdTextEui Proofs.RdTextFmtHex Proofs.RdTextTail Proofs.RdTextGpos Proofs.RdTextApl Proofs.RdTextWks Proofs.RdTextSvcb.
+     Proofs.TokDec Proofs.TokHex Proofs.TokShape Proofs.TokGeneric Proofs.TokUtf8 Proofs.RdTextName Proofs.RdTextAddr Proofs.RdTextBitmap Proofs.RdTextTypes Proofs.RdTextB32 Proofs.RdTextSig Proofs.RdTextEui Proofs.RdTextFmtHex Proofs.RdTextTail Proofs.RdTextGpos Proofs.RdTextApl Proofs.RdTextWks Proofs.RdTextSvcb Proofs.RdTextLoc.
 From DV Require Model.SchemaM.
 Open Scope Z_scope.
 
 Definition is_rest (f : tfield) : bool :=
-  match f with FHexRest | FB64Rest _ | FTxtRest | FBitmap | FQOpt | FNamesRest | FB64RestOpt | FB64RestE | FKeyRec | FAplRest | FWksPorts | FSvcbRec => true | _ => false end.
+  match f with FHexRest | FB64Rest _ | FTxtRest | FBitmap | FQOpt | FNamesRest | FB64RestOpt | FB64RestE | FKeyRec | FAplRest | FWksPorts | FSvcbRec | FLocRec => true | _ => false end.
 
 (* non-empty; the fields that read the rest of the line come last *)
 Fixpoint schema_wf (fs : list tfield) : Prop :=
@@ -57,6 +57,7 @@ Definition val_ok (f : tfield) (v : tval) : Prop :=
   | FAddr4S, VBytes b => all_bytes b = true /\ length b = 4%nat
   | FWksProto, VInt z => 0 <= z <= 255
   | FWksPorts, VBytes bm => all_bytes bm = true /\ wks_canon bm /\ zlen bm <= 8192
+  | FLocRec, VLoc la lo alt sz hp vp => loc_ok la lo alt sz hp vp
   | FSvcbRec, VSvcb p n ps => svcb_ok p n ps
   | FAplRest, VApl items => Forall item_ok items
   | FKeyRec, VKey f p a at_ k =>
@@ -83,6 +84,7 @@ Definition expect (st : style) (c : pctx) (f : tfield) (v : tval) : res tval :=
   | FNamesRest, VNames l => do l' <- map_res (name_path st c) l; Ok (VNames l')
   | FGw _, VGw g a (GwName n) => do n' <- name_path st c n; Ok (VGw g a (GwName n'))
   | FSvcbRec, VSvcb p n ps => do n' <- name_path st c n; Ok (VSvcb p n' ps)
+  | FLocRec, VLoc la lo alt sz hp vp => Ok (loc_expect la lo alt sz hp vp)
   | _, _ => Ok v
   end.
 
@@ -215,7 +217,7 @@ Lemma field_ok sty c f v ftext v' R q bl :
                              \/ exists q' bl', forallb is_blank bl' = true /\ st_end = stq q' (bl' ++ R)).
 Proof.
   intros (Hhs & Hbs & HO) Hv Hp He Hbl HR1 HR2.
-  destruct f as [maxv| |tokmax ctormax ne| | |sc| |v6| | | | | |k| |maxc| |en| | | | |bmax| | | |ipsec| | | | | | | | | |]; destruct v as [z|b|n|l|ws|nl|g a gw|items|sp sn sps|kf kp ka kat kk]; cbn [val_ok] in Hv; try contradiction;
+  destruct f as [maxv| |tokmax ctormax ne| | |sc| |v6| | | | | |k| |maxc| |en| | | | |bmax| | | |ipsec| | | | | | | | | | |]; destruct v as [z|b|n|l|ws|nl|g a gw|items|la lo lalt lsz lhp lvp|sp sn sps|kf kp ka kat kk]; cbn [val_ok] in Hv; try contradiction;
     cbn [print_field] in Hp; cbn [expect] in He; cbn [is_rest] in HR1, HR2.
   - (* FDec *)
     inversion Hp; subst ftext. inversion He; subst v'. specialize (HR1 eq_refl).
@@ -927,6 +929,30 @@ Proof.
       assert (Heol : is_eol_or_eof (utok t1) = false) by reflexivity. rewrite Heol.
       rewrite E2. cbn [bind rev app fst snd].
       change (utok t1 :: map utok ts') with (map utok (t1 :: ts')). rewrite Hback. cbn [bind]. rewrite Hrt. reflexivity.
+  - (* FLocRec *)
+    specialize (HR2 eq_refl). inversion He; subst v'. inversion Hp; subst ftext. clear Hp.
+    destruct la as [[[[d1 m1] s1] ms1] sg1]. destruct lo as [[[[d2 m2] s2] ms2] sg2].
+    pose proof Hv as ((Hd1 & _) & _).
+    pose proof (dec_safe d1 Hd1) as Hsd.
+    set (REST := [32] ++ dec m1 ++ ([32] ++ secs_text s1 ms1 ++ ([32] ++ [hemi sg1 78 83] ++ (32 ::
+       (dec d2 ++ ([32] ++ dec m2 ++ ([32] ++ secs_text s2 ms2 ++ ([32] ++ [hemi sg2 69 87] ++ (32 ::
+          (meters_text (the_dbl (dbl_of_Z lalt)) ++ loc_tail lsz lhp lvp R)))))))))).
+    assert (Etext : bl ++ loc_to_text (d1, m1, s1, ms1, sg1) (d2, m2, s2, ms2, sg2) lalt lsz lhp lvp ++ R = bl ++ dec d1 ++ REST).
+    { unfold REST, loc_to_text, coord_text, secs_text, loc_tail, hemi, loc_sizes_default.
+      destruct (dbl_eqb lsz loc_default_size && dbl_eqb lhp loc_default_hprec && dbl_eqb lvp loc_default_vprec);
+        repeat (rewrite <- ?app_assoc; cbn [app]); reflexivity. }
+    rewrite Etext.
+    exists (mkTok tIDENT (dec d1) (has_bs (dec d1)) None), (stq false REST).
+    split; [apply get0_word_q; auto using units_safe, dec_nonempty; apply word_end_blank32|].
+    split; [reflexivity|]. split.
+    { unfold tok_plain, is_identifier. cbn [ttype tvalue]. rewrite safe_word_not_hash by exact Hsd. repeat split; reflexivity. }
+    split; [apply stq_len_word|].
+    intros stX HX _. rewrite has_bs_safe in HX by exact Hsd.
+    destruct (loc_after_first d1 m1 s1 ms1 sg1 d2 m2 s2 ms2 sg2 lalt lsz lhp lvp R stX Hv HR2 HX) as (st & E & Hend).
+    exists (loc_expect (d1, m1, s1, ms1, sg1) (d2, m2, s2, ms2, sg2) lalt lsz lhp lvp), st.
+    split; [exact E|]. split; [unfold loc_expect; destruct (loc_sizes_default lsz lhp lvp); reflexivity|].
+    split; [discriminate|]. intros _. destruct Hend as [(te & A & B)| ->]; [left; exists te; split; assumption|].
+    right. exists false, []. split; reflexivity.
   - (* FSvcbRec *)
     specialize (HR2 eq_refl). pose proof Hv as (Hpr & V & HB & _).
     destruct (name_path sty c sn) as [n'| |] eqn:Enp; cbn [bind] in He; try discriminate. inversion He; subst v'.
@@ -1064,7 +1090,7 @@ Qed.
 (* the text of a field that brings its own separator is empty or starts with a blank *)
 Lemma tail_text_shape sty f v b : field_sep f = [] -> print_field sty f v = Ok b -> b = [] \/ exists b', b = 32 :: b'.
 Proof.
-  intros Hs Hp. destruct f; try discriminate; destruct v as [z|x|n|l|ws|nl|g a gw|items|sp sn sps|kf kp ka kat kk]; try discriminate; cbn [print_field] in Hp.
+  intros Hs Hp. destruct f; try discriminate; destruct v as [z|x|n|l|ws|nl|g a gw|items|la lo lalt lsz lhp lvp|sp sn sps|kf kp ka kat kk]; try discriminate; cbn [print_field] in Hp.
   - (* FBitmap *) destruct ws as [|w ws]; [inversion Hp; left; reflexivity|]. cbn [bitmap_to_text] in Hp.
     destruct (map_res rdtype_to_text (window_types (fst w) 0 (snd w))); cbn [bind] in Hp; try discriminate.
     destruct (bitmap_to_text ws); cbn [bind] in Hp; try discriminate. inversion Hp. right. eexists. reflexivity.
